@@ -145,13 +145,20 @@ def r08_3(run, model):
     run.rule("R08.3", "one source of truth for captures: in transform_closure the environment struct fields, the constructor arguments at the "
                       "creation site and the rebinding lets of the apply function all iterate the same `captured` collection")
     f = model.fn("transform_closure", LIFT)
+    # the function and the private helpers it was split into; a helper is handed `captured` under the same name
+    scope = model.scope_fns(f)
     loops = []
-    for loop in S.find(f.body, "For"):
-        it = S.norm_ws(run.facts.text(LIFT, loop["iter"]["sp"]))
-        if it.startswith("captured"):
-            pushed = sorted({c["recv"]["segs"][0] for c in S.walk(loop["body"]) if c["k"] == "MethodCall" and c["method"] == "push" and S.is_path(c["recv"])})
-            fi = any(fl["name"] == "field_index" for st in S.find(loop["body"], "Struct") for fl in st["fields"])
-            loops.append((it, pushed, fi, loop))
+    for g in scope:
+        cap_names = {"captured"} if g is f else {p["pat"].get("name") for p in g.params() if not p["self"] and (a_ := model.arg_for_param(f, g, p["pat"].get("name"))) is not None
+                                                 and S.idents(a_) == {"captured"}}
+        for loop in S.find(g.body, "For"):
+            it = S.norm_ws(run.facts.text(LIFT, loop["iter"]["sp"]))
+            root = re.match(r"\w+", it)
+            if root and root.group(0) in cap_names:
+                it = "captured" + it[len(root.group(0)):]
+                pushed = sorted({c["recv"]["segs"][0] for c in S.walk(loop["body"]) if c["k"] == "MethodCall" and c["method"] == "push" and S.is_path(c["recv"])})
+                fi = any(fl["name"] == "field_index" for st in S.find(loop["body"], "Struct") for fl in st["fields"])
+                loops.append((it, pushed, fi, loop))
     fill = [l for l in loops if len(l[1]) >= 2]
     rebind = [l for l in loops if l[2]]
     ok = len(fill) == 1 and len(rebind) == 1 and all(l[0].startswith("captured.iter().enumerate()") for l in fill + rebind)
@@ -165,7 +172,7 @@ def r08_3(run, model):
                 fields_v = v
             if "arg" in v:
                 args_v = v
-        txt = S.norm_ws(run.facts.text(LIFT, f.body["sp"]))
+        txt = " ".join(S.norm_ws(run.facts.text(LIFT, g.body["sp"])) for g in scope)
         ok2 = fields_v is not None and args_v is not None and f"fields:{fields_v}" in txt and f"args:{args_v}" in txt
         run.ob("R08.3", "transform_closure|the filled vectors are the struct's fields and the constructor's arguments", ok2, site(LIFT, f.node["sp"]),
                f"fields vector `{fields_v}`, argument vector `{args_v}`")
@@ -405,11 +412,15 @@ def r08_16(run, model):
                        "parameter is the environment struct")
     f = model.fn("transform_closure", LIFT)
     norm = lambda e: re.sub(r"^&|\.clone\(\)$", "", S.norm_ws(run.facts.text(LIFT, e["sp"])))
-    ins = [c for c in S.walk(f.body) if c["k"] == "MethodCall" and c["method"] == "insert_func" and len(c["args"]) >= 2]
-    sch = [st for st in S.find(f.body, "Struct") if st["segs"][-1] == "FnScheme"]
-    lf = [st for st in S.find(f.body, "Struct") if st["segs"][-1] == "LiftFn"]
-    if len(ins) != 1 or len(sch) != 1 or len(lf) != 1:
-        raise AnalysisIncomplete(f"transform_closure: insert_func x{len(ins)}, FnScheme x{len(sch)}, LiftFn x{len(lf)}")
+    scope = model.scope_fns(f)
+    ins = [(g, c) for g in scope for c in S.walk(g.body) if c["k"] == "MethodCall" and c["method"] == "insert_func" and len(c["args"]) >= 2]
+    sch = [(g, st) for g in scope for st in S.find(g.body, "Struct") if st["segs"][-1] == "FnScheme"]
+    lf = [st for g in scope for st in S.find(g.body, "Struct") if st["segs"][-1] == "LiftFn"]
+    if len(ins) != 1 or len(sch) != 1 or len(lf) != 1 or ins[0][0] is not sch[0][0]:
+        raise AnalysisIncomplete(f"transform_closure (and the helpers it calls): insert_func x{len(ins)}, FnScheme x{len(sch)}, LiftFn x{len(lf)}")
+    holder = ins[0][0]
+    ins = [ins[0][1]]
+    sch = [sch[0][1]]
     a = norm(ins[0]["args"][1])
     tyf = next((fl for fl in sch[0]["fields"] if fl["name"] == "ty"), None)
     b = norm(tyf["expr"]) if tyf else None
@@ -418,6 +429,11 @@ def r08_16(run, model):
            witness="go |..| body: the back end no longer finds the apply function (its first parameter is not the environment), emits "
                    "`go worker__3()` on the struct and prunes the closure bodies as dead")
     lets = {l["pat"]["name"]: l["init"] for l in S.find(f.body, "Local") if l["pat"]["k"] == "PIdent" and l.get("init") is not None}
+    if holder is not f and a is not None:
+        # the registration lives in a helper: the type is the argument transform_closure passes for that parameter
+        passed = model.arg_for_param(f, holder, a)
+        if passed is not None:
+            a = norm(passed)
     init = lets.get(a)
     fn_params = next((fl for fl in lf[0]["fields"] if fl["name"] == "params"), None)
     src = S.idents(fn_params["expr"]) if fn_params else set()
